@@ -136,6 +136,39 @@ Example C13_withdraw_nonvacuous :
   forallb matured_ok ops = true /\ cget (crun [] ops) 1 = (0, 10) /\ paid_of [] ops 1 = 10.
 Proof. vm_compute. auto. Qed.
 
+(* the WITHDRAW_REWARD transaction on the application path (CheckTx and DeliverTx both run
+   Validate).  A negative amount is refused and leaves both records unchanged (45cfd0d; before it
+   a negative amount was a deposit: balance up, withdrawn counter negative).  An amount inside
+   int64 that is accepted pays a non-negative amount, at most the matured balance and at most the
+   pool, and moves exactly that amount from balance to withdrawn. *)
+Theorem C13_withdraw_tx_negative_refused : forall value bal wd pool, value < 0 ->
+  withdraw_tx value bal wd pool = (false, bal, wd).
+Proof. exact withdraw_tx_negative. Qed.
+Print Assumptions C13_withdraw_tx_negative_refused.
+
+Theorem C13_withdraw_tx_in_range : forall value bal wd pool bal' wd', 0 <= value < 2^63 ->
+  withdraw_tx value bal wd pool = (true, bal', wd') ->
+  let a := value * UNIT in
+  0 <= a <= bal /\ a <= pool /\ bal' = bal - a /\ wd' = wd + a.
+Proof. exact withdraw_tx_in_range. Qed.
+Print Assumptions C13_withdraw_tx_in_range.
+
+(* the former accepted input (corpus/C13.json withdraw_values): -2 OLT against a matured balance *)
+Example C13_withdraw_minus2_refused :
+  withdraw_tx (-2) 153424657534246575340 0 1000000000000000000000000 = (false, 153424657534246575340, 0) /\
+  withdraw_tx 1 153424657534246575340 0 1000000000000000000000000
+    = (true, 152424657534246575340, 1000000000000000000).
+Proof. vm_compute. auto. Qed.
+
+(* NOT excluded by 45cfd0d (observed on the real code with `vh c13 -probe-negwd`): an amount that
+   does not fit int64 passes IsValid (it is positive) and is narrowed by ToCoinWithBase; 2^64 - 2
+   becomes -2, the same deposit as before.  The range hypothesis of C13_withdraw_tx_in_range is
+   therefore necessary. *)
+Example C13_withdraw_tx_int64_wrap :
+  withdraw_tx (2^64 - 2) 190780821917808219175 1000000000000000000 999999000000000000000000
+  = (true, 192780821917808219175, -1000000000000000000).
+Proof. vm_compute. reflexivity. Qed.
+
 (* ---- the former refuted witnesses (findings/C13_*.json, all repaired) are closed examples now:
    the inputs on which the full statements used to fail, with the observations of the real code
    recorded after the repairs; the model agrees with them and no monitor fires ---- *)
